@@ -17,25 +17,25 @@ CLAIMS = {
 CLAIMS.update({
     "C01": dict(
         technique="custom AST lint over tensorly/base.py: def-use closure of the tensor argument (layout-only), slot-wise AST comparison of forward/inverse pairs, keyword-forwarding check",
-        text="Decides three structural clauses: (LAYOUT-ONLY) in all nine layout functions the tensor reaches every return only through reshape/moveaxis/transpose and sibling layout functions, so no entry can be dropped, duplicated, rounded or re-typed for any shape/dtype; (INVERSE-MIRROR) fold/partial_fold undo exactly the axis move and shape bookkeeping of unfold/partial_unfold; (FORWARD) the vec helpers forward skip_begin/skip_end with mode=0. It does NOT decide that the permutation is the documented one (index arithmetic).",
+        text="Decides four structural clauses: (AXIS-LIVE) every ordering parameter (mode, row_modes, column_modes, skip_begin) reaches an axis argument of moveaxis/transpose on every return path or selects it by a test, so no path can ignore a requested ordering; (LAYOUT-ONLY) in all nine layout functions the tensor reaches every return only through reshape/moveaxis/transpose and sibling layout functions, so no entry can be dropped, duplicated, rounded or re-typed for any shape/dtype; (INVERSE-MIRROR) fold/partial_fold undo exactly the axis move and shape bookkeeping of unfold/partial_unfold; (FORWARD) the vec helpers forward skip_begin/skip_end with mode=0. It does NOT decide that the permutation is the documented one (index arithmetic).",
         note="Trusted: backend reshape/moveaxis/transpose are bijections on entries and keep the dtype (NumPy semantics).",
         design="DESIGN.md §3 C01",
     ),
     "C02": dict(
         technique="registry/table agreement, signature agreement between sibling implementations, repository-wide call-binds check over the resolved call graph, flow-sensitive may-dependence analysis (every option influences every return)",
-        text="Decides four structural necessary conditions: the dispatch table and both backends' registrations agree and resolve to functions; core and einsum siblings are call-compatible; every resolved call binds to its callee's signature; every option (weights, mask, skip_matrix, reverse, transpose, skip, modes, n_modes, batched_modes, cp_tensor weights) influences every return path of every operation. It does NOT decide that an einsum equation or reshape chain equals the textbook formula.",
+        text="Decides six structural necessary conditions: (HOMOGENEITY) MTTKRP in its three variants is homogeneous of degree 1 in the tensor, in the weights when given and in every factor but the skipped one (dimensional analysis with list lengths linear in the number of factors and affine loop acceleration); (SKIP-INDEX) the skip_matrix filter of khatri_rao/kronecker/sample_khatri_rao runs on the list as given; the dispatch table and both backends' registrations agree and resolve to functions; core and einsum siblings are call-compatible; every resolved call binds to its callee's signature; every option (weights, mask, skip_matrix, reverse, transpose, skip, modes, n_modes, batched_modes, cp_tensor weights) influences every return path of every operation. It does NOT decide that an einsum equation or reshape chain equals the textbook formula.",
         note="Trusted: may-dependence is an over-approximation (can miss, cannot over-report); user callables and decorated functions with unknown decorators are skipped.",
         design="DESIGN.md §3 C02",
     ),
     "C03": dict(
         technique="must-pass-through check on constructor CFGs (branch-consistent path exploration) + delegation-shape lint for views and wrapper methods over resolved callees",
-        text="Decides: every wrapper constructor (CP, Tucker, TT, TR, TT-matrix, PARAFAC2) validates the unmodified operand on every path before storing state and takes shape/rank from the validator; every delegating view and wrapper method hands the unmodified operand and mode to the family's dense reconstruction and wraps it only in layout functions, so those views agree with the dense tensor by construction. It does NOT decide that the reconstructions compute the defining contraction.",
+        text="Decides: (HOMOGENEITY) every value returned by cp_to_tensor/_unfolded/_vec, cp_norm, tucker_to_tensor/_unfolded/_vec, tt_to_tensor/_vec, tr_to_tensor and parafac2_to_slice has the homogeneity degree of the defining contraction (degree 1 in weights/core, in every factor, in the mask when given) for weights present and absent on every return path -- a dimensional analysis that is exact for 'applied twice / forgotten' errors and blind to wrong indices or coefficients; every wrapper constructor (CP, Tucker, TT, TR, TT-matrix, PARAFAC2) validates the unmodified operand on every path before storing state and takes shape/rank from the validator; every delegating view and wrapper method hands the unmodified operand and mode to the family's dense reconstruction and wraps it only in layout functions, so those views agree with the dense tensor by construction. It does NOT decide the index structure of the reconstructions (only their multilinearity degree).",
         note="Trusted: layout functions are pure re-arrangements (C01); validators' individual checks are not examined.",
         design="DESIGN.md §3 C03",
     ),
     "C11": dict(
         technique="table agreement across the six places that carry the constraint names, keyword-forwarding check at every hop, typestate check on ADMM's returned primal (path exploration), validate-before-work must-pass-through, sign-sanitiser recognition for the non-negativity handler",
-        text="Decides: the 12 constraint names agree (positionally where position is meaning) across validate_constraints' tables, the proximal_operator dispatch and five signatures, each dispatch branch applies its recorded operator; every hop forwards k=k with n_const = tensor order and consistent order/index; the factor returned by ADMM / stored by the driver / produced by the svd and random initialisers is a proximal-operator output; double constraints raise before any work; the non-negativity handler cannot return negatives. It does NOT decide the numeric feasibility of each operator's output.",
+        text="Decides: the 12 constraint names agree (positionally where position is meaning) across validate_constraints' tables, the proximal_operator dispatch and five signatures, each dispatch branch applies its recorded operator; every hop forwards k=k with n_const = tensor order and consistent order/index; the factor returned by ADMM / stored by the driver / produced by the svd and random initialisers is a proximal-operator output; double constraints raise before any work; the registration tables and the user's per-mode specification are indexed by the same key; the non-negativity handler cannot return negatives. It does NOT decide the numeric feasibility of each operator's output.",
         note="Trusted: the 12-row name->operator table was confirmed by reading and is frozen in the checker; user-supplied initialisations are outside PROX-TYPESTATE.",
         design="DESIGN.md §3 C11",
     ),
@@ -86,7 +86,7 @@ CLAIMS.update({
     ),
     "C14": dict(
         technique="loop-index provenance lint (sweep stores indexed only by the fixed-mode-filtered list) + path exploration under the rewriting options switched off + pure-move (no arithmetic / no copy-with-change) check of the fixed-factor flow",
-        text="Decides ONLY the fixed-modes clause: in parafac, non_negative_parafac, non_negative_parafac_hals, constrained_parafac and non_negative_tucker_hals every sweep store into the factor list is indexed by the variable of a loop over [m for m in range(ndim) if m not in fixed_modes] and, with normalize_factors/orthogonalise/linesearch off, nothing else re-binds the list; parafac's all-fixed shortcut wraps exactly the initialiser's outputs; tucker's fixed factors reach the result from init by moves only. The clause 'iteration starts from exactly the tensor the initialisation represents' (weight folding) is numeric and explicitly NOT decided.",
+        text="Decides ONLY the fixed-modes clause: in parafac, non_negative_parafac, non_negative_parafac_hals, constrained_parafac and non_negative_tucker_hals every sweep store into the factor list is indexed by the variable of a loop over [m for m in range(ndim) if m not in fixed_modes] and, with normalize_factors/orthogonalise/linesearch off, nothing else re-binds the list; parafac's all-fixed shortcut wraps exactly the initialiser's outputs; tucker's fixed factors reach the result from init by moves only and are re-inserted at positions taken from a sorted sequence. The clause 'iteration starts from exactly the tensor the initialisation represents' (weight folding) is numeric and explicitly NOT decided.",
         note="Trusted: frozen driver table; with normalisation / orthogonalisation / line search ON all factors are legitimately rewritten and the rule is silent.",
         design="DESIGN.md §3 C14",
     ),
